@@ -486,8 +486,10 @@ def getConnection (cf : Cfg) : M Unit := do
 /-- what user code does inside a session -/
 inductive Op
   | query                       -- an ORM query (Query._actual_fetch): prepare_connection_for_query_execution, then _exec_sql
+  | select                      -- db.select / db.get / db.exists, lazy loads: _exec_sql(start_transaction=False) directly
   | write (many : Bool)         -- db.execute / db.insert: _exec_sql(start_transaction=True)
   | modify (ws : List Bool)     -- create / change objects: cache.modified, statements issued by the next flush
+                                -- (ws = []: modified with nothing to write — create+delete, add+remove, value set back)
   | flush                       -- flush()
   | commit                      -- commit()
   | rollback                    -- rollback()
@@ -499,6 +501,7 @@ def runOp (cf : Cfg) : Op → M Unit
       getCache cf                 -- cache = database._get_cache()
       let _ ← prepare cf          -- cache.prepare_connection_for_query_execution()   (result not cached)
       execSql cf false false      -- database._exec_sql(sql, arguments)
+  | .select => execSql cf false false
   | .write many => execSql cf true many
   | .modify ws => do
       getCache cf
